@@ -347,6 +347,16 @@ theorem adjusted_price_can_exceed_exact :
      | some (l, c) => (usedRatio l c).bind (adjustI64 10000000000)
      | none => none) = some 20000011842 := by decide
 
+/-- The same truncation shows in the conversion itself: "collateral to liquidity never exceeds the exact value" is FALSE of model
+    and code by one native unit when the exact value lies just below a whole number. Witness (found by the venue monitor on a
+    multi-seed sweep; known finding C20-F2): a Solend reserve with 6 188 002 000 001 raw liquidity, 2 062 747 777 319 raw collateral,
+    9 decimals; 2 062 747 110 626 collateral is worth 6 187 999 999 999.99999… tokens, the program announces 6 188 000 000 000. -/
+theorem conversion_can_exceed_exact :
+    (match scaleSupplies (6188002000001 * ONE) 2062747777319 9 with
+     | some (l, c) => collateralToLiquidity 2062747110626 l c
+     | none => none) = some 6188000000000 ∧
+    2062747110626 * 6188002000001 / 2062747777319 = (6187999999999 : Int) := by decide
+
 /-- scale_supplies / convert_decimals divide and multiply by rows of the table: that table is exactly the powers of ten 10^0 .. 10^23 as I80F48 (regenerated from the real
     constants on every run; the model computes its own powers of ten and is diffed against the real functions across
     ALL 24 decimals) -/
